@@ -76,8 +76,8 @@ def handle (L : Layout) (toks : List String) : Option String :=
       some s!"{verdict} {showObls L (nextObls o obls)}"
     | _, _, _, _, _, _, _, _ => none
   | ["H12"] =>
-    -- is the current layout inside the scope of `C08_partial'` (H2; H1 is still reported: the layouts people use
-    -- satisfy both)?  also: without absorbing mappings?
+    -- does the current layout satisfy H1 ∧ H2 (the former scope of C08: since the fixes of D7 and D6 `C08_full` holds
+    -- for every layout; still reported: the layouts people use satisfy both)?  also: without absorbing mappings?
     some s!"{if layoutH1 L && layoutH2 L then "in" else "out"} {if noAbsLayout L then "noabs" else "abs"}"
   | ["AK", k] =>
     match k.toNat? with
